@@ -271,7 +271,17 @@ def gen_program(rng, ds, avail, stored, cats):
         rd = ["count"]
     else:
         rd = ["len"]
-    return {"ops": ops, "rd": rd}
+    prog = {"ops": ops, "rd": rd}
+    if rd[0] in ("to_pandas", "iter", "count") and "id" in avail and rng.random() < 0.3:
+        # row-group level filter on the injective column id (comparison operators only: with exact min/max statistics, C04, a
+        # row group is kept iff one of its rows satisfies the condition - the oracle's own evaluation, independent of filter_row_groups)
+        bounds = [0, 1, n // 2, n - 1, n, n + 2]
+        acc = 0
+        for s in ds["sizes"]:
+            acc += s
+            bounds += [acc - 1, acc]
+        prog["filters"] = [["id", rng.choice(["<", "<=", ">", ">="]), rng.choice(bounds)]]
+    return prog
 
 
 # ---------------------------------------------------------------------------------------------
@@ -320,15 +330,18 @@ def run_program(pf, prog):
     try:
         h = apply_ops(pf, prog["ops"])
         rd = prog["rd"]
+        flt = [tuple(f) for f in prog["filters"]] if prog.get("filters") else None
+        if rd[0] == "count" and flt:
+            return ("ok", int(h.count(filters=flt)))
         if rd[0] == "to_pandas":
-            kw = {}
+            kw = {"filters": flt} if flt else {}
             if rd[1] is not None:
                 kw["columns"] = list(rd[1])
             if rd[2]["kind"] != "default":
                 kw["index"] = idx_arg(rd[2])
             return ("ok", [h.to_pandas(**kw)])
         if rd[0] == "iter":
-            kw = {}
+            kw = {"filters": flt} if flt else {}
             if rd[1] is not None:
                 kw["columns"] = list(rd[1])
             if rd[2]["kind"] != "default":
@@ -441,8 +454,23 @@ def frame_cells(df):
 # ---------------------------------------------------------------------------------------------
 # the property oracle: what the text says, from the full read only (CPython does the slicing)
 
-def expected_selection(parts, ops):
+_CMP = {"<": lambda a, b: a < b, "<=": lambda a, b: a <= b, ">": lambda a, b: a > b, ">=": lambda a, b: a >= b}
+
+
+def keep_mask(sel, filters, ids):
+    """decision per selected part: does one of its rows satisfy the filter (a conjunction of comparisons on id)?
+    ids: full-read position -> value of the column id"""
+    return [any(all(_CMP[op](ids[p], v) for _, op, v in filters) for p in part) for part in sel]
+
+
+def expected_selection(parts, ops, filters=None, ids=None):
     """-> ('ok', selected parts) | ('fail', errname)"""
+    if filters:
+        r = expected_selection(parts, ops)
+        if r[0] == "fail":
+            return r
+        m = keep_mask(r[1], filters, ids)
+        return ("ok", [p for p, k in zip(r[1], m) if k])
     sel = list(parts)
     try:
         for op in ops:
@@ -468,7 +496,7 @@ def dedup(l):
 def oracle(base, prog, res):
     """base: dict(parts, full_cells, full_cols, full_index, avail).  Returns list of (what, text)."""
     probs = []
-    exp = expected_selection(base["parts"], prog["ops"])
+    exp = expected_selection(base["parts"], prog["ops"], prog.get("filters"), base["full_ids"])
     rd = prog["rd"]
     if exp[0] == "fail":
         if not (res[0] == "fail" and res[1] == exp[1]):
@@ -565,7 +593,7 @@ def oracle(base, prog, res):
 def oracle_rows(base, prog):
     """the rows the property's text selects, as full-read POSITIONS (CPython does the slicing):
     ['fail', err] | ['ok', n] | ['ok', [[positions]...]]"""
-    exp = expected_selection(base["parts"], prog["ops"])
+    exp = expected_selection(base["parts"], prog["ops"], prog.get("filters"), base["full_ids"])
     if exp[0] == "fail":
         return ["fail", exp[1]]
     sel = exp[1]
@@ -598,6 +626,13 @@ def rows_only(model):
 def _cell_eq(x, y):
     if x == y:
         return True
+    # the same number as float and as int (a column read as plain values under categories=[...] with pandas_nulls=False is
+    # float64 where the full read holds integer labels): the VALUES agree; dtypes are compared separately where they must agree
+    for a, b in ((x, y), (y, x)):
+        if isinstance(a, tuple) and len(a) == 2 and a[0] == "f" and isinstance(b, int) and not isinstance(b, bool):
+            import struct as _st
+            v = _st.unpack("<d", _st.pack("<Q", a[1]))[0]
+            return v == b
     # +0.0 / -0.0 are the same value
     return (isinstance(x, tuple) and isinstance(y, tuple) and x[0] == "f" and y[0] == "f"
             and (x[1] << 1) % (1 << 64) == 0 and (y[1] << 1) % (1 << 64) == 0)
@@ -633,6 +668,10 @@ def model_args(base, prog):
             ops.append(["pick", op[1]])
         else:
             ops.append(op[0])
+    if prog.get("filters"):
+        r0 = expected_selection(base["parts"], prog["ops"])
+        if r0[0] == "ok":
+            ops.append(["keep", [int(k) for k in keep_mask(r0[1], prog["filters"], base["full_ids"])]])
 
     def ropts(cols, idx):
         c = [] if cols is None else [nm(cols)]
@@ -769,7 +808,7 @@ def base_facts(ds, pf):
 def classify(ds, base, prog, probs, res):
     rd = prog["rd"]
     idx = rd[2] if rd[0] in ("to_pandas", "iter") else (rd[3] if rd[0] == "head" else {"kind": "none", "names": []})
-    exp = expected_selection(base["parts"], prog["ops"])
+    exp = expected_selection(base["parts"], prog["ops"], prog.get("filters"), base["full_ids"])
     nsel = len(exp[1]) if exp[0] == "ok" else -1
     nonempty = sum(1 for p in exp[1] if p) if exp[0] == "ok" else -1
     what = probs[0][0] if probs else None
@@ -828,10 +867,14 @@ def run_dataset(job):
                 probs = list(probs) + [("aliasing", "after this program the ORIGINAL handle has row groups %r, before it had %r" % (now, base["counts"]))]
                 pf = open_dataset(ds, path)
             ra, sa, sp = model_args(base, prog)
+            fe = False
+            if prog.get("filters"):
+                e1 = expected_selection(base["parts"], prog["ops"], prog["filters"], base["full_ids"])
+                fe = e1[0] == "ok" and not e1[1]
             out["programs"].append({"prog": prog, "impl": canon_impl(res), "problems": [list(p) for p in probs[:4]],
                                     "cls": classify(ds, base, prog, probs, res) if probs else None,
                                     "read_prog": ra, "spec_prog": sa, "spec_pos": sp, "oracle_rows": oracle_rows(base, prog),
-                                    "stream": prog.get("stream", "main"),
+                                    "stream": prog.get("stream", "main"), "filter_keeps_nothing": fe,
                                     "msg": res[2] if res[0] == "fail" else None})
     except Exception as e:      # noqa
         out["error"] = "%s: %s\n%s" % (type(e).__name__, e, traceback.format_exc()[-2000:])
@@ -851,6 +894,12 @@ def confirmation_programs(rng, ds, base):
         out.append({"ops": [op], "rd": ["to_pandas", None, dflt], "stream": "state-roundtrip"})
         out.append({"ops": [["pick", -1], op], "rd": ["iter", None, dflt, None], "stream": "state-roundtrip"})
         out.append({"ops": [op, ["slice", None, 2, None]], "rd": ["head", base["total"], None, {"kind": "false", "names": []}], "stream": "state-roundtrip"})
+    # head(n) for NEGATIVE n ("all but the last -n rows"): every row group is needed (gen_head_negative_selects_everything on the
+    # regenerated loop); the Coq model of head takes a natural n, so these programs are decided by the oracle only
+    if base["total"] > 0:
+        dflt = {"kind": "default", "names": []}
+        for n in sorted({-1, -rng.randint(1, base["total"]), -(base["total"] + 1)}):
+            out.append({"ops": [] if rng.random() < 0.6 else [gen_slice(rng)], "rd": ["head", n, None, dflt], "stream": "head-negative"})
     # two names over REQUIRED numeric columns only: with an optional column as a level the real code stores raw values as
     # level codes and the frame cannot even be inspected safely (segfault seen) - recorded in the finding, not re-run here
     distinct_nonempty = len(set(g[0] for g in base["rgs"] if g[1] > 0))
